@@ -10,13 +10,14 @@ From Verif Require Import ChecksumModel ExprTreeModel MsTextModel PolSemantic Po
 Local Open Scope N_scope.
 
 Definition pi2n (i : int) : N := Z.to_N (Uint63.to_Z i).
-Definition pword_bytes (w : N) : list N :=
-  [w mod 256; (w / 256) mod 256; (w / 65536) mod 256; (w / 16777216) mod 256;
-   (w / 4294967296) mod 256; (w / 1099511627776) mod 256].
+(* a word holds six bytes, little endian (primitive shifts: N division is slow on 400 kB of text) *)
+Definition pword_bytes (w : int) : list N :=
+  [pi2n (w land 255); pi2n ((w >> 8) land 255); pi2n ((w >> 16) land 255); pi2n ((w >> 24) land 255);
+   pi2n ((w >> 32) land 255); pi2n ((w >> 40) land 255)]%uint63.
 Definition pcase_code (c : list int) : N := match c with x :: _ => pi2n x | [] => 7 end.
 Definition pcase_bytes (c : list int) : tbytes :=
   match c with
-  | _ :: len :: ws => firstn (N.to_nat (pi2n len)) (flat_map (fun w => pword_bytes (pi2n w)) ws)
+  | _ :: len :: ws => firstn (N.to_nat (pi2n len)) (flat_map pword_bytes ws)
   | _ => []
   end.
 
@@ -100,7 +101,8 @@ Definition side_ok (mo : list N * option tbytes) (io : list int * list int) : bo
 Definition conc_model_obs (s : tbytes) := pobs wtokens i_conc_text (i_conc_from_str s).
 Definition sem_model_obs (s : tbytes) := pobs stokens i_sem_text (i_sem_from_str s).
 Definition pcase_ok (c : pcase) : bool :=
-  side_ok (conc_model_obs (pc_text c)) (snd (fst c)) && side_ok (sem_model_obs (pc_text c)) (snd c).
+  let s := pc_text c in
+  side_ok (conc_model_obs s) (snd (fst c)) && side_ok (sem_model_obs s) (snd c).
 
 (* a VALUE built with the enum constructors: the real Display text is the model's, the real re-parse gives an
    equal value exactly when the model's does, and whenever the value satisfies the parser's own checks
